@@ -2563,6 +2563,7 @@ func (t *tr) paramDecl(ps []param) string {
 }
 
 func (t *tr) allParams() []param {
+	t.dtSortRecvFields() // dt.go: declaration order of the struct, not first-use order
 	var ps []param
 	for _, a := range t.abstract {
 		ps = append(ps, param{name: a.name, k: kind{k: -1}, goName: a.ty, field: a.doc})
